@@ -168,6 +168,8 @@ def run(tier: str) -> Run:
         # R4 refusals
         for label, mut in (('missing', lambda p, pre: {k: v for k, v in list(p.items())[1:]}),
                            ('unknown', lambda p, pre: {**p, pre + 'bogus': next(iter(p.values()))}),
+                           ('unknown without the prefix', lambda p, pre: {**p, 'bogus': next(iter(p.values()))}),
+                           ('additional parameter of another model', lambda p, pre: {**p, 'bkg_a0': next(iter(p.values()))}),
                            ('un-prefixed', lambda p, pre: {k[len(pre):]: v for k, v in p.items()}),
                            ('foreign prefix of the same length', lambda p, pre: {'qk_' + k[len(pre):]: v for k, v in p.items()}),
                            ('foreign prefix on one name', lambda p, pre: {('zz_' + k[len(pre):] if n == 0 else k): v for n, (k, v) in enumerate(p.items())})):
